@@ -22,7 +22,8 @@ ID = 'C17'
 PYTEST_LAW = 'C17'     # also run /repo's own tests with this property's law attached
 RULE = ('the same seeded case list (a decoded WF-T graph g and a hand-built shuffled WF-G graph h per '
         'case, AMR and default models) executed in 6 worker interpreters: PYTHONHASHSEED in '
-        '{0, 1, 7, 123, random} plus one run with shuffled operation order; 24 operations per case '
+        '{0, 1, 7, 123, random} plus one run with shuffled operation order and one with the cases in '
+        'reverse order (another interleaving of models and graphs in one process); 24 operations per case '
         '(encode from every top, reconfigure with sorted keys, every transformation and pairs, |, -, '
         'errors on multi-component graphs, diagnostics, alignments, format, queries); offline join of '
         'the event logs on (case, op); graphs decoded and pickled in a child under another hash seed '
@@ -48,7 +49,7 @@ def cases(ctx):
             break
         yield 'batch', {'start': (ctx.shard * 1000 + b) * BATCH, 'count': BATCH}
     yield 'pickle', {'n': 60 if q else 300, 'hashseed': str(3 + ctx.shard)}
-    for i in range(6 if q else 40):
+    for i in range(10 if q else 60):
         yield 'cli', {'i': i}
     for i in range(150 if q else 2000):
         if not ctx.time_left():
@@ -69,7 +70,8 @@ def build_case(seed, i):
     mname = 'amr' if i % 2 else 'default'
     _, model, rm, _ = M.get(mname)
     roles = [':ARG0', ':ARG1', ':ARG2', ':mod', ':domain', ':op1', ':op2', ':polarity', ':quant',
-             ':name', ':time', ':location', ':poss', ':beneficiary', ':accompanier', ':age', ':foo']
+             ':name', ':time', ':location', ':poss', ':beneficiary', ':accompanier', ':age', ':foo',
+             ':consist-of', ':prep-on-behalf-of', ':op10', ':consist', ':prep-on-behalf']
     node = T.rand_tree(rng, rm, roles=roles, p_aln=0.3)
     g = layout.interpret(Tree(node, metadata={'id': str(i)}), model)
     vs, tr = G.rand_graph(rng, rm, bases=roles)
@@ -139,7 +141,10 @@ def worker(argv):
     from pmon import canon
     seed, start, count, mode = int(argv[0]), int(argv[1]), int(argv[2]), argv[3]
     out = sys.stdout
-    for i in range(start, start + count):
+    order = range(start, start + count)
+    if mode == 'reverse':
+        order = reversed(order)     # other interleaving of models and graphs in the same process
+    for i in order:
         g, h, model, rm, vs, mname = build_case(seed, i)
         ops = operations(g, h, model, vs)
         names = list(ops)
@@ -183,7 +188,7 @@ def oracle(ctx, kind, p):
     if kind == 'batch':
         outdir = os.path.join(core.OUT, 'C17', ctx.tier, f'logs-{ctx.shard}')
         os.makedirs(outdir, exist_ok=True)
-        runs = [(hs, 'inorder') for hs in HASHSEEDS] + [('0', 'shuffle')]
+        runs = [(hs, 'inorder') for hs in HASHSEEDS] + [('0', 'shuffle'), ('0', 'reverse')]
         procs = []
         for hs, mode in runs:
             path = os.path.join(outdir, f'b{p["start"]}-hs{hs}-{mode}.jsonl')
@@ -285,16 +290,19 @@ def oracle(ctx, kind, p):
                            ['--amr', '--check', '--canonicalize-roles'],
                            ['--amr', '--reconfigure=canonical', '--rearrange=canonical,attributes-first'],
                            ['--amr', '--dereify-edges', '--indicate-branches', '--make-variables={prefix}{j}'],
-                           ['--triples'], ['--amr', '--check', '--rearrange=alphanumeric', '--indent=3', '--compact']])
+                           ['--triples'], ['--amr', '--check', '--rearrange=alphanumeric', '--indent=3', '--compact'],
+                           ['--rearrange=alphanumeric,inverted-last'], ['--amr', '--rearrange=inverted-last,alphanumeric'],
+                           ['--amr', '--rearrange=canonical,alphanumeric,attributes-first'],
+                           ['--reconfigure=canonical', '--rearrange=inverted-last,canonical']])
         outs = []
-        for hs in ('0', '4242'):
+        for hs in ('0', '2', '4242'):
             r = subprocess.run([sys.executable, '-m', 'penman'] + opts, input=text.encode('utf-8'),
                                capture_output=True, env=dict(_env(hs), PYTHONPATH=core.REPO, PYTHONIOENCODING='utf-8'),
                                cwd='/', timeout=300)
             outs.append((r.returncode, r.stdout))
         ctx.count('cli_pairs')
         ctx.case(('cli', opts, text), True)
-        if outs[0] != outs[1]:
+        if any(o != outs[0] for o in outs[1:]):
             ctx.fail('cli:bytes-differ-across-hash-seeds', mech=' '.join(opts)[:40],
                      detail={'options': opts, 'input': text[:300], 'a': outs[0][1][:300].decode('utf-8', 'replace'),
                              'b': outs[1][1][:300].decode('utf-8', 'replace')})
